@@ -36,6 +36,7 @@ CONSTANTS
   DelayValues,  \* input delays set_input_delay may be called with at run time ({} = never)
   VaryAll,      \* TRUE: every peer draws inputs from Values; FALSE: only peer 0 (the others submit Default)
   MaxBehind, Catchup,   \* spectator catch-up settings
+  WaitMs,       \* > 0: lockstep sessions may call advance_frame_with_wait_timeout(WaitMs ms) (0 = never)
   Granular      \* TRUE: poll_remote_clients / events() are separate steps, packets can be dropped explicitly
 
 VARIABLES ss, cells, game, net, inbox, now, alive, dups, g, lastLine
@@ -52,7 +53,7 @@ CfgRecord ==
   [ players |-> NumPlayers, window |-> Window, sparse |-> Sparse,
     predictor |-> IF PredDefault THEN "default" ELSE "repeat",
     desync |-> DesyncInterval, notify |-> Notify, timeout |-> Timeout,
-    max_behind |-> MaxBehind, catchup |-> Catchup, max_delay |-> 8, peers |-> Peers ]
+    max_behind |-> MaxBehind, catchup |-> Catchup, max_delay |-> 8, peers |-> Peers, waitapi |-> WaitMs > 0 ]
 
 \* spectators attached to host p get the handles NumPlayers, NumPlayers+1, ... in peer order
 SpecsOf(p) == SelectSeq([i \in 1..N |-> i - 1], LAMBDA q : Peers[q+1].kind = "spec" /\ Peers[q+1].host = p)
@@ -210,6 +211,55 @@ TickWith(p, vals) ==
      /\ Feed(line)
      /\ UNCHANGED <<now, alive, dups>>
 
+\* the same iteration through advance_frame_with_wait_timeout(WaitMs).  arrs = the packets that reach the
+\* socket while the call waits, in arrival order: <<yield number 1..WaitMs, from, position in the link at
+\* that moment>>.  The clock advances by the number of yields the call takes.
+RECURSIVE TakeArr(_, _, _, _, _)
+TakeArr(nt, p, arrs, i, acc) ==
+  IF i > Len(arrs) THEN <<nt, acc>>
+  ELSE LET lk == <<arrs[i][2], p>>
+           k  == arrs[i][3]
+       IN TakeArr([nt EXCEPT ![lk] = DelAt(@, k)], p, arrs, i + 1, Append(acc, <<arrs[i][1], arrs[i][2], nt[lk][k]>>))
+
+WaitResult(p, vals, arrs) ==
+  LET s1   == AddAll(ss[p], ss[p].locals, vals, 1)
+      got  == TakeArr(net, p, arrs, 1, <<>>)[2]
+      arrF == [i \in 1..WaitMs |->
+                LET idx == SelectSeq([j \in 1..Len(got) |-> j], LAMBDA j : got[j][1] = i)
+                IN [j \in 1..Len(idx) |-> <<got[idx[j]][2], got[idx[j]][3]>>]]
+  IN P2P_AdvanceFrameWait(s1, cells[p], inbox[p], now, WaitMs, arrF)
+
+TickWaitWith(p, vals, arrs) ==
+  LET s0   == ss[p]
+      tk   == TakeArr(net, p, arrs, 1, <<>>)
+      got  == tk[2]
+      r    == WaitResult(p, vals, arrs)
+      s2   == r[1]
+      y    == r[5]
+      \* the poll of loop iteration j reads what arrived in yield j; nothing reads the arrivals of the last yield
+      rdI  == SelectSeq([j \in 1..Len(got) |-> j], LAMBDA j : got[j][1] <= Min2(y, WaitMs - 1))
+      unI  == SelectSeq([j \in 1..Len(got) |-> j], LAMBDA j : got[j][1] > Min2(y, WaitMs - 1))
+      ib   == inbox[p] \o [j \in 1..Len(rdI) |-> <<got[rdI[j]][2], got[rdI[j]][3]>>]
+      ex   == IF r[3] = "ok" THEN ExecA(Window, cells[p], game[p], r[4], 1, <<>>) ELSE <<cells[p], game[p], <<>>>>
+      line == ObsSession(s2, ex[2],
+                [ a |-> "tick", p |-> p, n |-> 0, t |-> now, wait |-> WaitMs, t1 |-> now + y,
+                  arr |-> [i \in 1..Len(arrs) |-> <<arrs[i][1], arrs[i][2], arrs[i][3] - 1>>],
+                  in |-> [i \in 1..Len(s0.locals) |-> <<s0.locals[i], vals[i]>>],
+                  add |-> [i \in 1..Len(s0.locals) |-> "ok"],
+                  r |-> IF r[3] = "P" THEN "P:" \o s2.err ELSE r[3],
+                  q |-> ex[3],
+                  cur0 |-> s0.sl.cur, g0 |-> <<game[p].frame, game[p].hash>>,
+                  rxi |-> RxInputs(ib), rxf |-> RxFrom(ib), ntx |-> Len(r[2]),
+                  stx |-> StxOf(r[2]), srx |-> SrxOf(p, ib) ])
+  IN /\ ss' = [ss EXCEPT ![p] = s2]
+     /\ cells' = [cells EXCEPT ![p] = ex[1]]
+     /\ game' = [game EXCEPT ![p] = ex[2]]
+     /\ inbox' = [inbox EXCEPT ![p] = [j \in 1..Len(unI) |-> <<got[unI[j]][2], got[unI[j]][3]>>]]
+     /\ net' = Transmit(tk[1], p, r[2], 1)
+     /\ now' = now + y
+     /\ Feed(line)
+     /\ UNCHANGED <<alive, dups>>
+
 NetQuiet == ~EagerNet \/ \A lk \in Links : net[lk] = <<>>
 
 Tick(p) ==
@@ -217,6 +267,21 @@ Tick(p) ==
   /\ alive[p] /\ ss[p].err = ""
   /\ ss[p].sl.cur < MaxFrame
   /\ \E vals \in [1..Len(ss[p].locals) -> IF VaryAll \/ p = 0 THEN Values ELSE {Default}] : TickWith(p, vals)
+
+\* lockstep sessions may wait for the confirmation (WaitMs > 0); at most one in-flight packet arrives meanwhile
+TickW(p) ==
+  /\ WaitMs > 0 /\ Window = 0
+  /\ now + WaitMs <= MaxClock
+  /\ NetQuiet
+  /\ alive[p] /\ ss[p].err = ""
+  /\ ss[p].sl.cur < MaxFrame
+  /\ \E vals \in [1..Len(ss[p].locals) -> IF VaryAll \/ p = 0 THEN Values ELSE {Default}] :
+       \/ TickWaitWith(p, vals, <<>>)
+       \/ \E from \in PeerIds \ {p} : \E off \in 1..WaitMs :
+             \E k \in 1..(IF EagerNet THEN 1 ELSE LinkCap) :
+               /\ k <= Len(net[<<from, p>>])
+               /\ WaitResult(p, vals, << <<off, from, k>> >>)[5] >= off     \* the call is still waiting then
+               /\ TickWaitWith(p, vals, << <<off, from, k>> >>)
 
 Poll(p) ==
   /\ alive[p] /\ ss[p].err = ""
@@ -366,7 +431,7 @@ DeathStep ==
               /\ DisconnectPlayer(p, Peers[v+1].locals[i])
 
 Next ==
-  \/ \E p \in P2PIds : Tick(p) \/ (Granular /\ (Poll(p) \/ Events(p)))
+  \/ \E p \in P2PIds : Tick(p) \/ TickW(p) \/ (Granular /\ (Poll(p) \/ Events(p)))
   \/ \E p \in SpecIds : SpecTick(p) \/ (Granular /\ (PollSpec(p) \/ EventsSpec(p)))
   \/ DelayStep
   \/ DeathStep
